@@ -774,7 +774,7 @@ class Interp:
                 env2 = Env({}, env)
                 for nm in ast.walk(g.target):
                     if isinstance(nm, ast.Name):
-                        env2.set(nm.id, Sym(nm.id))
+                        env2.set(nm.id, Sym(nm.id, attrs={'__notnone__': False}))      # an element of an unknown iterable may be None
                 elt = self.ev(e.elt, env2)
                 return Sym('[%s for %s in %s]' % (show(elt), ast.unparse(g.target), show(itv)), struct=('comp', elt, itv, ast.unparse(g.target)))
             return out
@@ -796,7 +796,7 @@ class Interp:
                 env2 = Env({}, env)
                 for nm in ast.walk(g.target):
                     if isinstance(nm, ast.Name):
-                        env2.set(nm.id, Sym(nm.id))
+                        env2.set(nm.id, Sym(nm.id, attrs={'__notnone__': False}))      # an element of an unknown iterable may be None
                 k, v = self.ev(e.key, env2), self.ev(e.value, env2)
                 return Sym('{%s: %s for %s in %s}' % (show(k), show(v), ast.unparse(g.target), show(itv)), struct=('dictcomp', k, v, itv, ast.unparse(g.target)))
             return out
